@@ -98,9 +98,9 @@ Next ==
               LET missing == {f \in okd : f[1] = e.c /\ f[3] >= Get(nextk, <<f[1], f[2]>>, 0)} IN
               Same(Check(missing = {}, "OutComplete", <<e.c, missing>>, viols))
          [] e.ev = "PeerFinTimeout" ->
-              \* state witness of stranded output: nothing in flight in either kernel queue, twice, yet the
-              \* final frame that was accepted has not arrived while the peer keeps reading
-              Same(Check(~(e.outq = 0 /\ e.inq = 0 /\ e.outq2 = 0 /\ e.inq2 = 0), "NoStrandedOutput",
+              \* state witness of stranded output: accepted bytes that were never handed to the kernel, nothing
+              \* in flight in either kernel queue (sampled twice), and the peer has been waiting to read
+              Same(Check(~(e.outq = 0 /\ e.inq = 0 /\ e.outq2 = 0 /\ e.inq2 = 0 /\ Acc(e.c) > Hand(e.c)), "NoStrandedOutput",
                          <<e.c, Acc(e.c), Hand(e.c)>>, viols))
          [] OTHER -> Same(viols)
 =============================================================================
